@@ -1,11 +1,13 @@
 SPECIFICATION Spec
 CONSTANTS
   Msgs = {1, 2, 3}
+  NQ = 1
   TL = 1
   ML = 0
   MaxRetries = 1
   Late = FALSE
   Repaired = TRUE
+  BudgetCheck = "after_slot"
   Prefetch = 2
   FinishMode = "taken"
 INVARIANT Conservation
